@@ -9,9 +9,11 @@ import (
 	"context"
 	"encoding/hex"
 	"encoding/json"
+	"errors"
 	"fmt"
 	"math/rand"
 	"os"
+	"strings"
 	"time"
 
 	"github.com/tonkeeper/tongo/boc"
@@ -118,6 +120,10 @@ func (r *rec) call(e ev.M, f func(g ev.M) error) {
 		err := f(g)
 		if err != nil {
 			g["err"], g["msg"] = "e", trunc(err.Error(), 200)
+			// a refusal must come from the answer, not from an overloaded machine: the runner treats this as infrastructure
+			if errors.Is(err, context.DeadlineExceeded) || strings.Contains(err.Error(), "timeout") || strings.Contains(err.Error(), "not connected") {
+				g["timeout"] = true
+			}
 		} else {
 			g["ok"] = true
 		}
